@@ -17,7 +17,7 @@ def K : Array UInt32 := #[
 
 def pad (msg : Bytes) : Bytes :=
   let l := msg.length
-  let zeros := (55 - l % 64 + 64) % 64   -- so that (l + 1 + zeros) % 64 = 56
+  let zeros := (64 + 55 - l % 64) % 64   -- so that (l + 1 + zeros) % 64 = 56
   let bitlen : Nat := l * 8
   msg ++ [(0x80 : UInt8)] ++ List.replicate zeros (0 : UInt8) ++
     (List.range 8).map (fun i => UInt8.ofNat ((bitlen >>> (8 * (7 - i))) % 256))
